@@ -20,3 +20,15 @@ Theorem C18_f12_role_delete_refuted :
   enforce (rcur (rrun rfixed rinit f12_ops)) u_1 act_r [ch1] = Deny.
 Proof. vm_compute. auto. Qed.
 Print Assumptions C18_f12_role_delete_refuted.
+
+(* F21: the pinned policy.Delete leaves the policy's ontology resource and the role -> policy
+   edge: a policy created again under the same key is at once attached to its former roles *)
+Definition f21_ops : list rop :=
+  [RSubject u_1; RCreateRole k1 false true; RCreatePolicy k1 (Pol [ch1] [act_r] false) true;
+   RSetOnRole k1 [k1]; RAssign u_1 k1; RDeletePolicies [k1];
+   RCreatePolicy k1 (Pol [ch1] [act_r] false) true].
+Theorem C18_f21_policy_delete_refuted :
+  enforce (rcur (rrun rpinned rinit f21_ops)) u_1 act_r [ch1] = Allow /\
+  enforce (rcur (rrun rfixed rinit f21_ops)) u_1 act_r [ch1] = Deny.
+Proof. vm_compute. auto. Qed.
+Print Assumptions C18_f21_policy_delete_refuted.
